@@ -237,31 +237,10 @@ func (fc *FuncCtx) ReachingDefs(at int, obj types.Object) []int {
 
 // reachesWithoutDef: is there a path from (after) `from` to `at` whose interior vertices are not defs?
 func reachesWithoutDef(g *Graph, from, at int, isDef map[int]bool) bool {
-	seen := g.newSet()
-	var stack []int
-	for _, e := range g.V[from].Succs {
-		if !seen[e.To] {
-			seen[e.To] = true
-			stack = append(stack, e.To)
-		}
-	}
-	for len(stack) > 0 {
-		v := stack[len(stack)-1]
-		stack = stack[:len(stack)-1]
-		if v == at {
-			return true
-		}
-		if isDef[v] {
-			continue
-		}
-		for _, e := range g.V[v].Succs {
-			if !seen[e.To] {
-				seen[e.To] = true
-				stack = append(stack, e.To)
-			}
-		}
-	}
-	return false
+	// flag-sensitive (see Graph.Reach): a definition on a path that the function's own flag
+	// tests exclude does not reach
+	r := g.ReachAfter(from, func(v *Vertex) bool { return isDef[v.ID] && v.ID != at }, nil)
+	return r[at]
 }
 
 // SoleDef reports whether def is the only definition of obj reaching vertex at.
